@@ -161,6 +161,19 @@ type zReadingBox struct {
 	Rs []zReading
 }
 
+// zTagList and the structs that embed a named type other than a struct (nothing to promote: a field named after the type).
+type zEmbLevel struct {
+	zLevel // (not exported: skipped)
+	ZLevelX
+	ZTags
+	Name string
+}
+
+type (
+	ZLevelX int
+	ZTags   []string
+)
+
 // boom is a Simplifier that panics while it is being written when armed.
 type boom struct {
 	Armed bool
@@ -259,7 +272,20 @@ type res07 struct {
 	Retained []any  // values returned to the caller, to be re-inspected later
 	Buffer   []byte // a result documented as the subject's own buffer: valid until the next call on that subject
 	Volatile bool   // result documented as reusable (Reuse option): not re-inspected
+	Err      error  // the error the call returned: a returned value like any other, re-inspected later
 }
+
+// errText is what a caller can read off an error value later: its type, its text and, for a parse error, its fields.
+func errText(err error) string {
+	s := fmt.Sprintf("%T: %s", err, err.Error())
+	var pe *oj.ParseError
+	if errors.As(err, &pe) && pe != nil {
+		s += fmt.Sprintf(" {Message:%q Line:%d Column:%d}", pe.Message, pe.Line, pe.Column)
+	}
+	return s
+}
+
+type keptErr struct{ err error }
 
 var parseInputs = [][]byte{
 	[]byte(`{"a":1,"b":[true,null,"x"],"c":{"d":1.5}}`), []byte(`[1,2,3]`), []byte(`"stré\n"`), []byte(`12345678901234567890`),
@@ -341,7 +367,13 @@ func drawValue07(t *rapid.T) (any, string) {
 		switch sim.Intn(t, 10, "holder") {
 		case 8, 9:
 			rd := zReading{C: zCelsius([]float32{0, 1.5, -2.25}[sim.Intn(t, 3, "c")]), L: zLevel(sim.Intn(t, 3, "l")), N: zName([]string{"", "n"}[sim.Intn(t, 2, "nm")]), F: zFlag(sim.Bool(t, "f")), U: zCount(sim.Intn(t, 3, "u")), OC: zCelsius(sim.Intn(t, 2, "oc"))}
-			switch sim.Intn(t, 4, "rform") {
+			switch sim.Intn(t, 6, "rform") {
+			case 4:
+				v := zEmbLevel{ZLevelX: ZLevelX(sim.Intn(t, 3, "lx")), ZTags: ZTags{"t"}[:sim.Intn(t, 2, "tags")], Name: "e"}
+				return v, dd(v)
+			case 5:
+				v := &zEmbLevel{ZLevelX: ZLevelX(sim.Intn(t, 3, "lx")), Name: "p"}
+				return v, "&" + dd(*v)
 			case 0:
 				return &rd, "&" + dd(rd)
 			case 1:
@@ -801,7 +833,7 @@ func (o *op07) exec(w *world07) (r *res07) {
 		} else if err == nil {
 			docs = []any{v}
 		}
-		r.Canon = canonErr(err, docs)
+		r.Canon, r.Err = canonErr(err, docs), err
 		r.Retained = docs
 		r.Volatile = o.Reuse
 	}
@@ -906,7 +938,7 @@ func (o *op07) exec(w *world07) (r *res07) {
 		} else {
 			err = w.ojV.ValidateReader(rd)
 		}
-		r.Canon = canonErr(err, nil)
+		r.Canon, r.Err = canonErr(err, nil), err
 		return
 	case "oj.Tokenizer", "sen.Tokenizer":
 		h := &panickyHandler{builderHandler: newBuilderHandler(), at: o.PanicAt, r: r}
@@ -928,7 +960,7 @@ func (o *op07) exec(w *world07) (r *res07) {
 		if err == nil && h.berr != nil {
 			err = h.berr
 		}
-		r.Canon = canonErr(err, h.docs)
+		r.Canon, r.Err = canonErr(err, h.docs), err
 		r.Retained = h.docs
 		return
 	}
@@ -941,7 +973,7 @@ func (o *op07) exec(w *world07) (r *res07) {
 			text = sw.Buf
 			r.Writer = sw
 		}
-		r.Canon = canonErr(err, []any{string(text)})
+		r.Canon, r.Err = canonErr(err, []any{string(text)}), err
 		if sw == nil {
 			r.Retained = []any{string(text)}
 		}
@@ -1159,6 +1191,8 @@ func snapshot(vals []any) string {
 			b.WriteString(string(tv))
 		case exprText:
 			b.WriteString(tv.String())
+		case keptErr:
+			b.WriteString(errText(tv.err))
 		default:
 			b.WriteString(ref.Exact(v))
 		}
@@ -1341,6 +1375,10 @@ func propC07(cx *sim.Ctx) {
 		// (an aborted call is not judged for freshness, but what it did hand over before it failed is the caller's)
 		if !r.Volatile && len(r.Retained) > 0 {
 			retained = append(retained, kept{op: i, vals: r.Retained, snap: snapshot(r.Retained)})
+		}
+		if r.Err != nil { // (also of an aborted call, and whatever the Reuse option says about the documents)
+			v := []any{keptErr{r.Err}}
+			retained = append(retained, kept{op: i, vals: v, snap: snapshot(v)})
 		}
 		if !r.Aborted && r.Buffer != nil {
 			v := []any{r.Buffer}
